@@ -275,6 +275,7 @@ Proof.
   { apply forallb_forall. intros v Hv. apply memb_In. apply Htargets. exact Hv. }
   rewrite Hfa. cbn [negb].
   set (w0 := fun v => count_nat v (flat_map snd tree)).
+  change (filter (fun v : nat => count_nat v (flat_map snd tree) =? 0) keys) with (filter (fun v => w0 v =? 0) keys).
   assert (Hw0 : forall v, w0 v = inflow V v).
   { intros v. unfold w0, inflow. rewrite (targets_eq tree HV). reflexivity. }
   assert (K : Kinv w0 (filter (fun v => w0 v =? 0) keys) []).
